@@ -79,6 +79,28 @@ def parse_url_post(E):
 def build(E):
     spec = Spec("C19")
     add_targets(E, spec)
+    # last clause of C19: "the request line sent to a server parses to the same host, port, path and query the caller asked for" -
+    # the client must put exactly the normalised form on the wire: GeminiClient._get_single (real constructor, real protocol
+    # methods) with the clause tagged [C17,C19], and connection_made writing exactly url + CRLF
+    from contracts import client_proto, client_session
+    own = list(spec.targets)
+    spec.targets = []
+    client_proto.add_targets(E, spec, "C19", classes=(client_proto.GP,))
+    spec.targets = [t for t in spec.targets if t[0].endswith(".connection_made")]
+    spec.keep = None
+    client_session.add_targets(E, spec, "C19")
+    spec.targets = [t for t in spec.targets if not t[0].endswith(".upload")]
+    skeep = spec.keep
+    spec.targets = own + spec.targets
+    CLQ = "nauyaca.client.session:GeminiClient"
+
+    def keep(name, _s=skeep):
+        if name.startswith(CLQ):
+            return _s(name) if _s else True
+        if name.startswith("nauyaca.client.protocol:"):
+            return "[C11]" in name          # connection_made writes exactly the request line
+        return True
+    spec.keep = keep
     return spec
 
 
@@ -169,6 +191,9 @@ def add_targets(E, spec):
         spec.event_contracts = {}
     for q in (PARSE, f"{URLMOD}:normalize_url", f"{URLMOD}:validate_url"):
         spec.event_contracts[q] = E.contracts[q]
+        # these targets call parse_url by ITS contract of this module, not by a caller contract another module may have installed
+        _orig = E.contracts[q].make_args
+        E.contracts[q].make_args = (lambda ctx, _o=_orig: (E.caller_contracts.pop(PARSE, None), _o(ctx))[1])
         spec.targets.append((q, None))
     spec.trusted += ["E7 (pyvc/urlmodel.py): urllib.parse facts, shape, round trip and authority definitions", "E6: UTF-8 codec lemmas"]
     spec.notes += ["IPv6 zone identifiers and Python 3.12's validation of bracketed hosts are outside the E7 model; replay uses real IPv6 literals"]
